@@ -1,16 +1,4 @@
 // ---- prelude for the generator unit (C09). TRUSTED.
-pub uninterp spec fn exp_text(e: Escaper, raw: Seq<u8>) -> Seq<char>;
-impl Escaper {
-    /// Escaper::escaped_expectation dispatches to escaped_expectation_ascii / _unicode (unit escaping, C11): its result is an
-    /// uninterpreted function of the line's content (both variants trim the line feeds first: read) here; what C11 proves about it is restated as axiom_exp_text (checked there function by function)
-    #[verifier::external_body]
-    pub fn escaped_expectation(&self, raw: &[u8]) -> (r: String) ensures r@ == exp_text(*self, strip_nl(raw@)) { unimplemented!() }
-}
-pub uninterp spec fn esc_unp(e: Escaper, raw: Seq<u8>) -> bool;
-impl Escaper {
-    #[verifier::external_body]
-    pub fn has_unprintable(&self, raw: &[u8]) -> (r: bool) ensures r == esc_unp(*self, raw@) { unimplemented!() }
-}
 pub uninterp spec fn trim_nl_bytes(b: Seq<u8>) -> Seq<u8>;
 #[verifier::external_body]
 pub fn __trim_newlines_bytes<'a>(b: &&'a [u8]) -> (r: &'a [u8]) ensures r@ == trim_nl_bytes(b@) { unimplemented!() }
